@@ -461,6 +461,9 @@ def run(ctx):
         ranges = [(Fraction(cuts[2 * i]), Fraction(cuts[2 * i + 1])) for i in range(m)]
         M = 2 * (ranges[-1][1] - ranges[0][0])
         consts = [Fraction(rng.randint(0, 8), 4) for _ in range(m)]      # within the big-M of each other? not necessarily
+        if rng.random() < 0.5:            # the caller lists the pieces in any order (documented: non-overlapping, nothing more)
+            order = list(range(m)); rng.shuffle(order)
+            ranges = [ranges[i] for i in order]; consts = [consts[i] for i in order]
         inp = k2_piecewise(ctx, ranges, consts)
         j = rng.randrange(m)
         xval = ranges[j][0] + (ranges[j][1] - ranges[j][0]) * Fraction(rng.randint(0, 4), 4)
